@@ -101,7 +101,7 @@ def run_once(r):
     def octosql(sql, extra_env=None, cfg=""):
         open(cfg_path, "w").write(cfg)
         env = {"HOME": home, "OCTOSQL_NO_TELEMETRY": "1", "PATH": os.environ.get("PATH", ""),
-               "XDG_CONFIG_HOME": home + "/.xc", "XDG_DATA_HOME": home + "/.xd", "XDG_CACHE_HOME": home + "/.xh"}
+               "XDG_CONFIG_HOME": home + "/.xc", "XDG_DATA_HOME": home + "/.xd", "XDG_CACHE_HOME": home + "/.xh", "GOMAXPROCS": "2"}
         env.update(extra_env or {})
         args = [OCTOSQL, sql, "-o", mode]
         if not optimize:
